@@ -300,6 +300,9 @@ class ConcurrentTaskSet : public TaskSetBase {
       F&& f,
       bool skipRecheck = false,
       float poolRecursiveLoadFactor = kDefaultPoolRecursiveLoadFactor) {
+    if (DISPENSO_EXPECT(canceled(), false)) {
+      return;
+    }
     if (cost_ == TaskCost::kHeavy) {
       schedulePlaced(std::forward<F>(f), skipRecheck, poolRecursiveLoadFactor);
       return;
@@ -450,6 +453,9 @@ class ConcurrentTaskSet : public TaskSetBase {
       F&& f,
       bool skipRecheck = false,
       float poolRecursiveLoadFactor = kDefaultPoolRecursiveLoadFactor) {
+    if (DISPENSO_EXPECT(canceled(), false)) {
+      return;
+    }
     ssize_t placedThreshold = std::max(pool_.numThreads() + 1, taskSetLoadFactor_ / 2);
     if (outstandingTaskCount_.load(std::memory_order_relaxed) > placedThreshold &&
         DISPENSO_EXPECT(!canceled(), true) && detail::PerPoolPerThreadInfo::canInlineSchedule()) {
